@@ -55,11 +55,17 @@ def Tok.isNumber : Tok → Bool      -- `verif.util.is_number`
   | .bad _ => false
   | _ => true
 
-/-- `Text._clean` : parse, -999 ↦ nan, unparseable ↦ nan -/
+/-- the Python literal `1e30` of `Text._clean` / `verif.util.clean`: the double
+1000000000000000019884624838656 (the same constant as in `Model/Clean.lean`) -/
+def big : Rat := 1000000000000000019884624838656
+
+/-- `Text._clean` (input.py:560-568, since f945b9c): parse; -999 ↦ nan, a value above 1e30 ↦ nan
+(`fvalue == -999 or fvalue > 1e30`, so `inf` / `infinity` is missing too and `-inf` stays a value),
+unparseable ↦ nan.  The same missing-value encodings as `verif.util.clean` for NetCDF variables. -/
 def cleanTok : Tok → XR
-  | .num q => if q = -999 then .nan else .fin q
+  | .num q => if q = -999 ∨ big < q then .nan else .fin q
   | .nan => .nan
-  | .inf => .pinf
+  | .inf => .nan
   | .ninf => .ninf
   | .bad _ => .nan
 
